@@ -108,6 +108,8 @@ class Decorator(object):
             w = v
         elif v[0] == 'call' and libname(v[1]) in ('update_wrapper', 'wraps') and v[2] and v[2][0][0] == 'closure':
             w = v[2][0]
+        elif v[0] == 'call' and v[1][0] == 'call' and libname(v[1][1]) == 'wraps' and v[2] and v[2][0][0] == 'closure':
+            w = v[2][0]          # functools.wraps(f)(wrapper) is update_wrapper(wrapper, f); the argument of wraps is judged by W-IFACE
         elif v[0] == 'call' and v[1][0] == 'lib' and len(v[2]) >= 2 and v[2][0][0] == 'closure' and v[2][1] == FN and self.package_function(v[1][1]) is not None:
             # a helper of the package that finishes the wrapper (a replacement for functools.update_wrapper): judged by W-IFACE (rule_W_UPDATER)
             w = v[2][0]
@@ -179,6 +181,18 @@ class Decorator(object):
                         else:
                             flat.append(a)
                     v = (v[0], v[1], tuple(flat)) + tuple(v[3:])
+                # CacheInfo(hit=..., miss=..., load=..., maxsize=..., size=...): keywords are placed at the position of the field they name
+                if len(v) > 3 and v[3] and all(k[0] == 'kw' for k in v[3]):
+                    flds = cacheinfo_fields(self.repo)
+                    slots = list(v[2]) + [None] * (len(flds) - len(v[2]))
+                    okk = len(v[2]) <= len(flds)
+                    for k in v[3]:
+                        if okk and k[1] in flds and slots[flds.index(k[1])] is None:
+                            slots[flds.index(k[1])] = k[2]
+                        else:
+                            okk = False
+                    if okk and None not in slots:
+                        v = (v[0], v[1], tuple(slots), ()) + tuple(v[4:])
                 self.info_call = v
                 for a in v[2][:3]:
                     if a[0] == 'sub' and is_bk(a[1], 'list'):
